@@ -17,8 +17,7 @@ def compareNugetPrerelease : Bytes → Bytes → Int
   | [], _ :: _ => -1
   | _ :: _, [] => 1
   | a :: as, b :: bs =>
-    let d := sgnInt (toLowerB a).toNat (toLowerB b).toNat
-    if d != 0 then d else compareNugetPrerelease as bs
+    thenInt (sgnInt (toLowerB a).toNat (toLowerB b).toNat) (compareNugetPrerelease as bs)
 
 /-- `compareElem`. -/
 def compareElem (sys : System) (s1 s2 : Bytes) : Int :=
@@ -33,16 +32,18 @@ def comparePre (sys : System) : List Bytes → List Bytes → Int
   | [], [] => 0
   | [], _ :: _ => -1
   | _ :: _, [] => 1
-  | a :: as, b :: bs =>
-    let c := compareElem sys a b
-    if c != 0 then c else comparePre sys as bs
+  | a :: as, b :: bs => thenInt (compareElem sys a b) (comparePre sys as bs)
+
+/-- The zero-padded numeric loop once the left side is exhausted (`getNum` yields 0). -/
+def compareNumsNilL : List Value → Int
+  | [] => 0
+  | b :: bs => thenInt (sgnInt 0 b) (compareNumsNilL bs)
 
 /-- The zero-padded numeric loop: `for i < max(len) { sgnv(getNum(i), getNum(i)) }`. -/
 def compareNums : List Value → List Value → Int
-  | [], [] => 0
-  | [], b :: bs => let s := sgnInt 0 b; if s != 0 then s else compareNums [] bs
-  | a :: as, [] => let s := sgnInt a 0; if s != 0 then s else compareNums as []
-  | a :: as, b :: bs => let s := sgnInt a b; if s != 0 then s else compareNums as bs
+  | [], bs => compareNumsNilL bs
+  | a :: as, [] => thenInt (sgnInt a 0) (compareNums as [])
+  | a :: as, b :: bs => thenInt (sgnInt a b) (compareNums as bs)
 
 /-! ### Maven -/
 
@@ -101,15 +102,21 @@ def mavenStep (a? b? : Option MavenElem) : Outcome (Option Int) :=
     let c := compareMavenQualifier a.str b.str
     if c == 0 then .ok none else .ok (some c)
 
-/-- `mavenExtension.compare`. -/
-def mavenCompare : List MavenElem → List MavenElem → Outcome Int
-  | [], [] => .ok 0
-  | [], b :: bs =>
+/-- `mavenExtension.compare` once the left side is exhausted: every step compares the
+padding element with `b`; if all steps continue the result is -1 (`len(bs) > len(as)`). -/
+def mavenCompareNilL : List MavenElem → Outcome Int
+  | [] => .ok 0
+  | b :: bs =>
     match mavenStep none (some b) with
-    | .ok none => (mavenCompare [] bs).bind (fun r => .ok (if r == 0 then -1 else r))
+    | .ok none => (mavenCompareNilL bs).bind (fun r => .ok (if r == 0 then -1 else r))
     | .ok (some r) => .ok r
     | .err => .err
     | .panic => .panic
+
+/-- `mavenExtension.compare`. -/
+def mavenCompare : List MavenElem → List MavenElem → Outcome Int
+  | [], bs =>
+    mavenCompareNilL bs
   | a :: as, [] =>
     match mavenStep (some a) none with
     | .ok none => mavenCompare as []
@@ -125,26 +132,23 @@ def mavenCompare : List MavenElem → List MavenElem → Outcome Int
 
 /-! ### RubyGems -/
 
-def gemStep (a b : GemElem) : Option Int :=
-  if a == b then none else
+/-- One step of the element loop of `gemExtension.compare`; 0 = `continue`. -/
+def gemElemCmp (a b : GemElem) : Int :=
+  if a == b then 0 else
   let ac := let c := versionCategory a.str; if c == versionEOF then versionQualifier else c
   let bc := let c := versionCategory b.str; if c == versionEOF then versionQualifier else c
-  if ac > bc then some 1
-  else if ac < bc then some (-1)
-  else if ac == versionNumeric then
-    let s := sgnInt a.int b.int
-    if s != 0 then some s else none
-  else
-    let c := cmpBytes a.str b.str
-    if c == 0 then none else some c
+  if ac > bc then 1
+  else if ac < bc then -1
+  else if ac == versionNumeric then sgnInt a.int b.int
+  else cmpBytes a.str b.str
 
 def gemPadElem : GemElem := { str := [48], int := 0 }
 
 def gemElemsCompare : List GemElem → List GemElem → Int
   | [], [] => 0
-  | [], b :: bs => match gemStep gemPadElem b with | some r => r | none => gemElemsCompare [] bs
-  | a :: as, [] => match gemStep a gemPadElem with | some r => r | none => gemElemsCompare as []
-  | a :: as, b :: bs => match gemStep a b with | some r => r | none => gemElemsCompare as bs
+  | [], b :: bs => thenInt (gemElemCmp gemPadElem b) (gemElemsCompare [] bs)
+  | a :: as, [] => thenInt (gemElemCmp a gemPadElem) (gemElemsCompare as [])
+  | a :: as, b :: bs => thenInt (gemElemCmp a b) (gemElemsCompare as bs)
 
 /-! ### PEP 440 -/
 
@@ -157,12 +161,6 @@ def Pep440.rank (p : Pep440) : Int :=
   else if !p.loc.isEmpty then pep440Local
   else pep440Empty
 
-/-- `pep440LocalElem`: split at the first '.'. -/
-def pepLocalElem (s : Bytes) : Bytes × Bytes :=
-  match s.findIdx? (· == 46) with
-  | none => (s, [])
-  | some i => (s.take i, s.drop (i + 1))
-
 def allDigits (s : Bytes) : Bool := !s.isEmpty && s.all isDigitB
 
 def p440compareLocalElem (a b : Bytes) : Int :=
@@ -172,53 +170,56 @@ def p440compareLocalElem (a b : Bytes) : Int :=
   else if ad then sgnInt (parseUint64Lossy a) (parseUint64Lossy b)
   else cmpBytes a b
 
-/-- `pep44CompareLocal`: the loop runs `pn` times (not `min(pn, qn)`). -/
+/-- The dot-separated elements of a local version (`strings.Count(s, ".") + 1` of them;
+`pep440LocalElem` peels them off one at a time). -/
+def localElems (s : Bytes) : List Bytes :=
+  go [] s
+where
+  go (cur : Bytes) : Bytes → List Bytes
+    | [] => [cur]
+    | c :: rest => if c == 46 then cur :: go [] rest else go (cur ++ [c]) rest
+
+/-- The element loop of `pep44CompareLocal`: it runs once per element of `p` (when `q`
+is exhausted `pep440LocalElem` yields ""), then returns `sgn(pn, qn)` = `fin`. -/
+def pepLocalLoop (fin : Int) : List Bytes → List Bytes → Int
+  | [], _ => fin
+  | p :: ps, [] => thenInt (p440compareLocalElem p []) (pepLocalLoop fin ps [])
+  | p :: ps, q :: qs => thenInt (p440compareLocalElem p q) (pepLocalLoop fin ps qs)
+
+/-- `pep44CompareLocal`. -/
 def pepCompareLocal (pl ql : Bytes) : Int :=
   if pl == ql then 0 else
-  let pn := (pl.filter (· == 46)).length + 1
-  let qn := (ql.filter (· == 46)).length + 1
-  go pl ql pn (sgnInt pn qn)
-where
-  go (pl ql : Bytes) : Nat → Int → Int
-    | 0, fin => fin
-    | n + 1, fin =>
-      let (pe, pl') := pepLocalElem pl
-      let (qe, ql') := pepLocalElem ql
-      let s := p440compareLocalElem pe qe
-      if s != 0 then s else go pl' ql' n fin
+  let ps := localElems pl
+  let qs := localElems ql
+  pepLocalLoop (sgnInt ps.length qs.length) ps qs
+
+def isPreRank (r : Int) : Bool := r == pep440Alpha || r == pep440Beta || r == pep440Prerelease
+
+/-- The part of `pep440Extension.compare` after the ranks were found equal: the
+`switch pRank` with its `fallthrough`s (pre number → local → post number), then the
+dev part. -/
+def pepTail (p q : Pep440) : Int :=
+  let r := p.rank
+  thenInt (if isPreRank r then sgnInt p.preNum q.preNum else 0) <|
+  thenInt (if isPreRank r || r == pep440Local then pepCompareLocal p.loc q.loc else 0) <|
+  thenInt (if isPreRank r || r == pep440Local || r == pep440Post then sgnInt p.postNum q.postNum else 0) <|
+  (if p.devPresent || q.devPresent then
+    (if p.devPresent != q.devPresent then (if p.devPresent then -1 else 1) else sgnInt p.devNum q.devNum)
+   else 0)
 
 /-- `pep440Extension.compare`. -/
 def pepCompare (pv qv : Version) (pe qe : Option Pep440) : Int :=
-  let pExt := pe.getD {}
-  let qExt := qe.getD {}
-  if pExt.epoch != qExt.epoch then sgnInt pExt.epoch qExt.epoch else
-  let s := compareNums pv.num qv.num
-  if s != 0 then s else
+  let p := pe.getD {}
+  let q := qe.getD {}
+  thenInt (sgnInt p.epoch q.epoch) <|
+  thenInt (compareNums pv.num qv.num) <|
   if pe.isNone && qe.isNone then 0 else
-  let pr := pExt.rank
-  let qr := qExt.rank
-  if pr != qr then sgnInt pr qr else
-  -- switch with fallthrough
-  let s1 : Int :=
-    if pr == pep440Alpha || pr == pep440Beta || pr == pep440Prerelease then sgnInt pExt.preNum qExt.preNum else 0
-  if s1 != 0 then s1 else
-  let s2 : Int :=
-    if pr == pep440Alpha || pr == pep440Beta || pr == pep440Prerelease || pr == pep440Local
-    then pepCompareLocal pExt.loc qExt.loc else 0
-  if s2 != 0 then s2 else
-  let s3 : Int :=
-    if pr == pep440Alpha || pr == pep440Beta || pr == pep440Prerelease || pr == pep440Local || pr == pep440Post
-    then sgnInt pExt.postNum qExt.postNum else 0
-  if s3 != 0 then s3 else
-  if pExt.devPresent || qExt.devPresent then
-    if pExt.devPresent != qExt.devPresent then (if pExt.devPresent then -1 else 1)
-    else sgnInt pExt.devNum qExt.devNum
-  else 0
+  thenInt (sgnInt p.rank q.rank) (pepTail p q)
 
 /-! ### compare -/
 
 /-- `compare(v1, v2)` for non-nil versions. -/
-def compare (v1 v2 : Version) : Outcome Int :=
+def vcompare (v1 v2 : Version) : Outcome Int :=
   if v1.sys != v2.sys then .ok (sgnInt v1.sys.toNat v2.sys.toNat) else
   match v1.ext, v2.ext with
   | .maven a, .maven b => mavenCompare a b
@@ -244,14 +245,14 @@ def compareOpt : Option Version → Option Version → Outcome Int
   | none, none => .ok 0
   | none, some _ => .ok (-1)
   | some _, none => .ok 1
-  | some a, some b => compare a b
+  | some a, some b => vcompare a b
 
 /-- `System.Compare(str1, str2)`. -/
 def compareStr (sys : System) (s1 s2 : Bytes) : Outcome Int :=
   match parse sys s1, parse sys s2 with
   | .panic, _ => .panic
   | _, .panic => .panic
-  | .ok a, .ok b => compare a b
+  | .ok a, .ok b => vcompare a b
   | .ok _, .err => .ok 1
   | .err, .ok _ => .ok (-1)
   | .err, .err => .ok 0
